@@ -138,7 +138,7 @@ def write_plan(path, hash_seed=1, dirent_seed=1, env_pad=0, faults=()):
 
 
 def run(env, cwd, argv, hash_seed=1, dirent_seed=1, env_pad=0, faults=(), max_calls=20000,
-        timeout_ms=20000, io_dir=None):
+        timeout_ms=60000, io_dir=None, cpu_ms=None):
     """Run `qmluic argv...` in `cwd` under the simulated kernel."""
     io_dir = io_dir or os.path.join(env.slot(), "io")
     os.makedirs(io_dir, exist_ok=True)
@@ -148,7 +148,7 @@ def run(env, cwd, argv, hash_seed=1, dirent_seed=1, env_pad=0, faults=(), max_ca
     errp = os.path.join(io_dir, "stderr")
     write_plan(plan, hash_seed, dirent_seed, env_pad, faults)
     cmd = [env.simkernel, "--plan", plan, "--log", logp, "--stdout", outp, "--stderr", errp, "--cwd", cwd,
-           "--max-calls", str(max_calls), "--timeout-ms", str(timeout_ms), "--", env.qmluic] + list(argv)
+           "--max-calls", str(max_calls), "--timeout-ms", str(timeout_ms)] + (["--cpu-ms", str(cpu_ms)] if cpu_ms else []) + ["--", env.qmluic] + list(argv)
     p = subprocess.run(cmd, capture_output=True, text=True)
     try:
         text = open(logp, encoding="utf-8", errors="replace").read()
